@@ -1060,16 +1060,25 @@ def add_references(rng, blocks):
 
 
 def generate(rng, profile='full', max_blocks=None, **overrides):
+    """Never raises: a tree rejected by the generator's own safety rules (check_tree / emission asserts) is re-drawn."""
     kw = dict(PROFILES.get(profile, {}))
     kw.update(overrides)
     if max_blocks:
         kw['max_blocks'] = max_blocks
-    opt = Opt(**kw)
-    g = Gen(rng, opt)
-    blocks = g.blocks(0)
-    if opt.refs:
-        add_references(rng, blocks)
-    return emit(rng, opt, g, blocks, profile)
+    last = None
+    for attempt in range(50):
+        opt = Opt(**kw)
+        g = Gen(rng, opt)
+        try:
+            blocks = g.blocks(0)
+            if opt.refs:
+                add_references(rng, blocks)
+            doc = emit(rng, opt, g, blocks, profile)
+            doc.redrawn = attempt
+            return doc
+        except AssertionError as e:
+            last = e
+    raise RuntimeError('generator could not produce a valid document in 50 attempts: %s' % last)
 
 
 def emit(rng, opt, g, blocks, profile='full', leading_blank=None):
